@@ -212,6 +212,50 @@ Proof.
     unfold s, wls_step_free. fold x. rewrite pack_unpack by exact Lx. exact S2.
 Qed.
 
+(** the code's weights are positive whenever the u weights are, so the two corollaries below apply to what
+    projectQ (coordinates with qdot = u) and projectU actually minimise *)
+Lemma q_weights_pos : forall uw, Forall (fun k => 0 < k) uw -> Forall (fun k => 0 < k) (map (fun k => nmul ROps k k) uw).
+Proof. induction 1; cbn; constructor; auto. apply Rmult_lt_0_compat; auto. Qed.
+Lemma u_rel_scale_pos u w : 0 < w -> 0 < u_rel_scale ROps u w.
+Proof.
+  intros Hw. unfold u_rel_scale; cbn. unfold Rltb. destruct (Rlt_dec 1 (Rabs u * w)) as [H|H].
+  - destruct (Rabs_pos u) as [Hp|Hz]; [exact Hp | rewrite <- Hz in H; lra].
+  - unfold Rdiv. rewrite Rmult_1_l. apply Rinv_0_lt_compat; auto.
+Qed.
+Lemma u_weights_pos : forall us uw, Forall (fun k => 0 < k) uw -> Forall (fun k => 0 < k) (u_weights ROps us uw).
+Proof.
+  induction us as [|u us IH]; intros [|w uw] H; cbn; try constructor.
+  - inversion H; subst. assert (Hs := u_rel_scale_pos u w H2). unfold Rdiv. rewrite Rmult_1_l.
+    apply Rinv_0_lt_compat. apply Rmult_lt_0_compat; auto.
+  - inversion H; subst. apply IH; auto.
+Qed.
+Lemma u_weights_length : forall us uw, length us = length uw -> length (u_weights ROps us uw) = length uw.
+Proof. induction us as [|u us IH]; intros [|w uw] L; cbn in *; try discriminate; auto. Qed.
+
+Lemma q_step_min_norm free p uw e d :
+  length p = length free -> length uw = length free -> Forall (fun k => 0 < k) uw ->
+  wls_den ROps (pack free p) (pack free (map (fun k => nmul ROps k k) uw)) <> 0 ->
+  zero_at_known free d -> dot p d = e ->
+  let s := q_step ROps free p uw e in
+  zero_at_known free s /\ dot p s = e /\
+  wnorm2 (map (fun k => nmul ROps k k) uw) s <= wnorm2 (map (fun k => nmul ROps k k) uw) d.
+Proof.
+  intros Lp Lw Hw Hd Hz He. apply wls_step_free_min_norm; auto.
+  - rewrite map_length; auto.
+  - apply q_weights_pos; auto.
+Qed.
+Lemma u_step_min_norm free p uw us e d :
+  length p = length free -> length uw = length free -> length us = length free -> Forall (fun k => 0 < k) uw ->
+  wls_den ROps (pack free p) (pack free (u_weights ROps us uw)) <> 0 ->
+  zero_at_known free d -> dot p d = e ->
+  let s := u_step ROps free p uw us e in
+  zero_at_known free s /\ dot p s = e /\ wnorm2 (u_weights ROps us uw) s <= wnorm2 (u_weights ROps us uw) d.
+Proof.
+  intros Lp Lw Lu Hw Hd Hz He. apply wls_step_free_min_norm; auto.
+  - rewrite u_weights_length; lia.
+  - apply u_weights_pos; auto.
+Qed.
+
 (** ---------------------------------------------------------------- m rows, certificate form *)
 Lemma dot_repeat0 : forall n z, dot (repeat 0 n) z = 0.
 Proof. induction n; intros [|y z]; cbn; try lra. rewrite IHn. lra. Qed.
